@@ -16,7 +16,13 @@ pub fn make_cfg(spec: &EvmSpec) -> CfgEnv {
 }
 
 pub fn make_block(b: &BlockSpec) -> BlockEnv {
+    // BlockEnv::default() carries excess blob gas 0 under the Prague update fraction (blob gas price 1);
+    // a non-zero excess raises the price (the fraction is a block-environment input like any other: the
+    // reference and Grevm receive the same BlockEnv)
+    let mut env = BlockEnv::default();
+    env.set_blob_excess_gas_and_price(b.excess_blob_gas, 5_007_716);
     BlockEnv {
+        blob_excess_gas_and_price: env.blob_excess_gas_and_price,
         number: U256::from(b.number),
         beneficiary: b.beneficiary,
         timestamp: U256::from(b.timestamp),
@@ -63,6 +69,8 @@ pub fn make_tx(t: &TxSpec) -> TxEnv {
         access_list,
         gas_priority_fee: t.priority_fee,
         authorization_list,
+        blob_hashes: t.blob_hashes.clone(),
+        max_fee_per_blob_gas: t.max_fee_per_blob_gas,
         ..TxEnv::default()
     }
 }
